@@ -1,4 +1,5 @@
 import Crusta.Proofs.Sat
+import Crusta.Proofs.SatRoundTrip
 
 /-!
 # C16 — the exchange with an external SAT solver is well-formed and cannot hang (property theorems)
@@ -34,5 +35,66 @@ theorem pipe_no_deadlock :
     (∀ cap out, 0 < cap → Pipe.run .drainThenWait cap (out + 3) (Pipe.start out) = .returned) ∧
     (∀ cap out, cap < out → ∀ fuel, Pipe.run .waitThenDrain cap fuel (Pipe.start out) ≠ .returned) :=
   ⟨fun cap out h => Pipe.drain_then_wait_returns cap h out, Pipe.wait_then_drain_deadlocks⟩
+
+/-- **the DIMACS text denotes exactly the instance, and its header is exact.**  After any history
+of clause additions, reservations and earlier calls (literals have a variable ≥ 1: Rust's
+`Literal(NonZeroIsize)`), a reference DIMACS reader (`readDimacs`: header `p cnf V C`, one clause per
+non-empty line, terminated by the only `0`) reads the text handed to the external program back as
+exactly the clauses added so far followed by one unit clause per assumption; the number of clause
+lines of the text **equals** the announced count, and every variable is between 1 and the
+announced variable count. -/
+theorem dimacs_text_exact (ops : List BOp) (as : List Lit)
+    (hops : ∀ op ∈ ops, op.Proper) (has : ∀ a ∈ as, 1 ≤ a.var) :
+    let b := ops.foldl Buffered.apply {}
+    ∃ nv nc cls, readDimacs (b.dimacs as) = some (nv, nc, cls) ∧
+      cls = b.clauses ++ as.map (fun a => [a]) ∧
+      clauseLineCount (b.dimacs as) = nc ∧ cls.length = nc ∧
+      ∀ c ∈ cls, ∀ l ∈ c, 1 ≤ l.var ∧ l.var ≤ nv :=
+  Sat.dimacs_header_exact ops as hops has
+
+/-- the hypothesis on literals is needed and is what the type guarantees: variable 0 would be
+rendered as the clause terminator -/
+theorem dimacs_variable_zero_breaks :
+    readDimacs (Buffered.dimacs (({} : Buffered).addClause [pl 0, pl 1]) []) = none := Sat.readDimacs_var0
+
+/-- **the printed model is reported as such**: a reply consisting of `s SATISFIABLE` and the
+literals of a model `m` over the declared variables, split over `v` lines in any way (bare `v`
+lines included), the last one closed by ` 0`, with comment lines (`c`, `c text`, empty; any valid
+text without line break) anywhere — before the status line, between value lines, after the end —
+is reported as exactly `m`; fewer literals than declared variables leave the rest undefined;
+`s UNSATISFIABLE` among comment lines is reported as unsatisfiable.  (`isize` parsing of the
+literals bounds the number of variables by `isize::MAX`: `reply_variable_bound_needed`.) -/
+theorem wellformed_reply_reported (m : List Bool) (r : Nat) (lay : Layout) (hlay : lay.Ok)
+    (hm : m.length + r ≤ 9223372036854775807) (nv : Nat) (pre post : List IO.Str)
+    (hpre : ∀ l ∈ pre, Noise l) (hpost : ∀ l ∈ post, Noise l) :
+    parseReply (m.length + r) (renderModel m lay) = .sat (m.map some ++ List.replicate r none) ∧
+    parseReply nv (renderUnsat pre post) = .unsat :=
+  ⟨Sat.parseReply_renderModel_pad m r lay hlay hm, Sat.parseReply_renderUnsat nv pre post hpre hpost⟩
+
+theorem reply_variable_bound_needed (a : List Bool) (ha : a.length = 9223372036854775807) :
+    parseReply (a ++ [true]).length (renderModel (a ++ [true]) ⟨[], [], [], []⟩) = .abort "not a literal" :=
+  Sat.parseReply_renderModel_big a ha
+
+/-- **a truncated reply is never a result**: every byte prefix of a well-formed satisfiable reply
+that ends before the terminating `0` token — between lines, inside a line, inside a token, inside a
+multi-byte character of a comment — is reported as undecided or aborts, whatever the number of
+declared variables -/
+theorem truncated_reply_is_no_result (nv : Nat) (m : List Bool) (lay : Layout) (hlay : lay.Ok)
+    (out : List UInt8) (h : out <+: renderHead m lay) :
+    (parseReply nv out = .unknown ∨ ∃ e, parseReply nv out = .abort e) ∧
+    renderModel m lay = renderHead m lay ++ IO.encodeUtf8 (48 :: 10 :: lay.post.flatMap (fun l => l ++ [10])) :=
+  ⟨Sat.truncated_reply_not_result nv m lay hlay out h, Sat.renderModel_eq_head m lay⟩
+
+/-- non-vacuity: a layout with a comment before the status line, one value line with one literal,
+a comment, and the closing value line -/
+example : (⟨[[99]], [([], 1)], [[99, 32, 120]], []⟩ : Layout).Ok := by
+  have ok1 : IO.LineOk [99] := ⟨by intro c hc; simp at hc; subst hc; unfold IO.Scalar; omega, by simp⟩
+  have ok2 : IO.LineOk [99, 32, 120] :=
+    ⟨by intro c hc; simp at hc; rcases hc with rfl | rfl | rfl <;> (unfold IO.Scalar; omega), by simp⟩
+  refine ⟨?_, ?_, ?_, ?_⟩
+  · intro l hl; simp at hl; subst hl; exact ⟨ok1, .inr (.inl rfl)⟩
+  · intro ch hch l hl; simp at hch; subst hch; simp at hl
+  · intro l hl; simp at hl; subst hl; exact ⟨ok2, .inr (.inr ⟨[120], rfl⟩)⟩
+  · intro l hl; simp at hl
 
 end Crusta.C16
